@@ -172,13 +172,18 @@ pub fn parse_with(texts: &[String], script: &[usize]) -> (Outcome, Vec<usize>) {
     let points: Rc<RefCell<Vec<usize>>> = Rc::new(RefCell::new(vec![]));
     let p2 = points.clone();
     let script: Vec<usize> = script.to_vec();
+    #[cfg(feature = "hooks")]
     apache_avro::verif::set_pending_chooser(Some(Box::new(move |n| {
         let mut p = p2.borrow_mut();
         let i = p.len();
         p.push(n);
         script.get(i).copied().unwrap_or(0)
     })));
+    // without hook H3 the drain order is whatever the hash seed of this run gives: nothing to script
+    #[cfg(not(feature = "hooks"))]
+    let _ = (&p2, &script);
     let r = guarded(|| Schema::parse_list(texts.iter().map(|s| s.as_str())));
+    #[cfg(feature = "hooks")]
     apache_avro::verif::set_pending_chooser(None);
     let out = match r {
         Err(p) => Outcome::Panic(p),
@@ -191,6 +196,23 @@ pub fn parse_with(texts: &[String], script: &[usize]) -> (Outcome, Vec<usize>) {
 
 /// All drain scripts with at most `bound` deviations from "always take the first pending name".
 fn explore_scripts(texts: &[String], bound: usize, mut visit: impl FnMut(&[usize], &Outcome)) -> u64 {
+    // without hook H3: eight parses per input order, each with the hash seeds it happens to get
+    // (sampling - the run reports it as a cap and is not exhaustive)
+    #[cfg(not(feature = "hooks"))]
+    {
+        let _ = bound;
+        for _ in 0..8 {
+            let (out, _) = parse_with(texts, &[]);
+            visit(&[], &out);
+        }
+        return 8;
+    }
+    #[cfg(feature = "hooks")]
+    explore_scripts_hooked(texts, bound, &mut visit)
+}
+
+#[cfg(feature = "hooks")]
+fn explore_scripts_hooked(texts: &[String], bound: usize, visit: &mut dyn FnMut(&[usize], &Outcome)) -> u64 {
     let mut runs = 0u64;
     let mut stack: Vec<Vec<usize>> = vec![vec![]];
     while let Some(prefix) = stack.pop() {
@@ -419,6 +441,8 @@ pub fn run(tier: Tier, replay: Option<&J>) -> i32 {
         rot.rotate_left(n / 2);
         check_set(&label, set, vec![id, rev, rot], if tier == Tier::Quick { 1 } else { 2 }, (1 << 40) | ci as u64, &mut st);
     }
+    #[cfg(not(feature = "hooks"))]
+    st.caps.insert("hook H3 (pending-schema chooser) does not compile against this tree: drain orders were left to the hash seed (8 parses per input order), not enumerated".into());
     let rep = Report {
         id: "C20".into(),
         tier,
